@@ -85,6 +85,10 @@ pub struct Script {
     /// between that message and the stop check, so polling must still return successfully.
     #[serde(default)]
     pub stats_consumer: u8,
+    /// the value of the message sent on the stop channel (`Receiver<bool>`): polling stops "when a message is received",
+    /// whatever it carries; true here = the message is `false`
+    #[serde(default)]
+    pub stop_message_false: bool,
 }
 
 const N_DIRS: usize = 999;
@@ -443,13 +447,14 @@ pub fn run_scenario(script: &Script) -> Result<Option<History>, Fail> {
 
     let consumer = script.consumer.clone();
     let stop_handle = script.stop_handle % 3;
+    let stop_value = !script.stop_message_false;
     let mut stop_tx = Some(stop_tx);
     // k = 0: act before polling starts
     let mut rx_opt = Some(rx);
     match consumer {
         Consumer::StopAfter(0) => {
             if let Some(t) = &stop_tx {
-                let _ = t.send(true);
+                let _ = t.send(stop_value);
             }
             if stop_handle != 0 {
                 stop_tx = None; // the signal is already in the channel
@@ -485,7 +490,7 @@ pub fn run_scenario(script: &Script) -> Result<Option<History>, Fail> {
                     match consumer {
                         Consumer::StopAfter(k) if k >= 1 && got.len() == k => {
                             if let Some(t) = &stop_tx {
-                                let _ = t.send(true);
+                                let _ = t.send(stop_value);
                             }
                             if stop_handle == 2 {
                                 stop_tx = None; // sent, then dropped: the signal stays in the channel
@@ -704,12 +709,13 @@ pub fn script_strategy() -> impl Strategy<Value = Script> {
             let hole_continue = (delivery / 4 + tie_group) % 4; // derived from other draws: 0..=3
             let stop_handle = ((delivery as usize + start_sequence + run_length) % 3) as u8; // derived likewise: 0..=2
             let stats_consumer = ((tie_group as usize + start_sequence + entries.len()) % 2) as u8;
+            let stop_message_false = (run_length + entries.len() + delivery as usize) % 3 == 0;
             vcp.cuts = cuts;
             if let (Some(sel), false) = (never_at, entries.is_empty()) {
                 let i = (sel as usize * entries.len()) >> 16;
                 entries[i].delay = NEVER;
             }
-            Script { start_volume, run_length, start_sequence, entries, consumer, with_stats, last_modified_header, vcp, delivery, tie_group, hole_continue, stop_handle, stats_consumer }
+            Script { start_volume, run_length, start_sequence, entries, consumer, with_stats, last_modified_header, vcp, delivery, tie_group, hole_continue, stop_handle, stats_consumer, stop_message_false }
         })
 }
 
@@ -733,6 +739,7 @@ pub fn classify(s: &Script) -> CaseInfo {
         .class(s.run_length >= 100, "widely-populated-bucket")
         .class(s.tie_group >= 2, "tied-upload-times")
         .class(s.stop_handle % 3 != 0, "stop-handle-dropped-early")
+        .class(s.stop_message_false && matches!(s.consumer, Consumer::StopAfter(_)), "stop-message-carries-false")
         .class(s.with_stats && s.stats_consumer % 2 == 1 && matches!(s.consumer, Consumer::StopAfter(0) | Consumer::StopAfter(1)), "stats-consumer-leaves-before-stop")
         .class(s.delivery & 4 != 0, "pretty-printed-listings")
         .class(s.hole_continue > 0 && s.entries.iter().take(natural.len()).any(|e| e.delay == NEVER), "uploader-continues-past-a-missing-chunk")
@@ -761,6 +768,7 @@ pub fn run(ctx: &Ctx, rep: &mut Report) {
     rep.require_class("scenarios", "consumer-dropped", 20);
     rep.require_class("scenarios", "stop-handle-dropped-early", 50);
     rep.require_class("scenarios", "stats-consumer-leaves-before-stop", 5);
+    rep.require_class("scenarios", "stop-message-carries-false", 20);
     rep.require_class("scenarios", "delayed-or-faulted-chunk", 50);
     rep.require_class("scenarios", "widely-populated-bucket", 20);
     rep.require_class("scenarios", "tied-upload-times", 40);
